@@ -26,6 +26,13 @@ Proof.
   - rewrite shl_big by (auto; lia). reflexivity.
 Qed.
 
+(* arithmetic on values of the unsigned type that stay in its range is exact *)
+Lemma arith_U w x : W w -> 0 <= x < 2 ^ w -> arith (U w) x = Ok x.
+Proof.
+  intros HW Hx. apply arith_ok; [exact HW|].
+  apply in_ty_range. unfold imin, imax, umax. cbn [U sgn bits]. lia.
+Qed.
+
 Lemma pow2_range k w : 0 <= k < w -> 0 <= 2 ^ k < 2 ^ w.
 Proof. intros. split; [apply Z.lt_le_incl, pow2_pos; lia | apply pow2_lt; lia]. Qed.
 
